@@ -112,6 +112,15 @@ def init (inputs : List File) : St :=
 
 def parseFiles (fs : Fs) (inputs : List File) : St := run fs (fs.n + 1) (init inputs)
 
+/-- the include statements that refer to a file which was read (or should have been) but cannot be used — it cannot be opened
+    or does not parse — and is not itself named on the command line: `parse_files` reports each of them, after all files have been
+    read, at the include statement (repairs fbd2e79, c7e33f0, a095136) -/
+def badSites (fs : Fs) (inputs reads : List File) : List (File × Nat) :=
+  reads.flatMap (fun f => (fs.incs f).zipIdx.filterMap (fun ii =>
+    match resolve fs.libs ii.1 with
+    | some t => if !((fs.files[t]?.map (·.ok)).getD false) && !inputs.contains t then some (f, ii.2) else none
+    | none => none))
+
 /-- `is_user_input` -/
 def isUserInput (inputs : List File) (f : File) : Bool := inputs.contains f
 
